@@ -761,7 +761,23 @@ class Checker:
         stride = max(1, int(os.environ.get("VERIF_C15_SWEEP_STRIDE", self.cfg["sweep_stride"])))
         npairs = int(os.environ.get("VERIF_C15_SWEEP_PAIRS", self.cfg["sweep_pairs"]))
         n_all = self.cfg.get("sweep_all_pairs", 0)
-        t_end = time.monotonic() + self.cfg["sweep_s"]
+        t_start = time.monotonic()
+        t_end = t_start + self.cfg["sweep_s"]
+
+        def phase_mode():
+            """The sweep budget is shared: first the line-site sweeps over many
+            pairs (55 %), then every line event of a few pairs (20 %), then
+            bytecode granularity (25 %).  Tiers without the last two modes spend
+            everything on the first."""
+            frac = (time.monotonic() - t_start) / max(1e-9, self.cfg["sweep_s"])
+            want_all = n_all > 0
+            want_op = self.cfg.get("sweep_opcode_pairs", 0) > 0
+            if want_all and 0.55 <= frac < 0.75 and sw["pairs_in_all_events_mode"] < n_all:
+                return "all"
+            if want_op and frac >= (0.75 if want_all else 0.7) and \
+                    sw["pairs_in_opcode_mode"] < self.cfg.get("sweep_opcode_pairs", 0):
+                return "op"
+            return "sites"
         sw = self.sweep = {"pairs": 0, "preemption_runs": 0, "cancellation_runs": 0,
                            "double_preemption_runs": 0, "pairs_in_opcode_mode": 0,
                            "line_events_of_A_total": 0, "distinct_sites_total": 0,
@@ -830,7 +846,8 @@ class Checker:
                     "threads": [[opa, dict(opb)], [opb, dict(opa)]],
                     "p": 0.0, "setorder": "off", "cancel_plan": {}, "table": [],
                     "exits": [[1, 0], [0, 1]], "first": 0, "burst": False}
-            op_mode = sw["pairs_in_opcode_mode"] < self.cfg.get("sweep_opcode_pairs", 0)
+            mode = phase_mode()
+            op_mode = mode == "op"
             if op_mode:
                 base["opcodes"] = True
             res = forkpool.fork_call(exec_scenario, dict(base, record_sites=[[0, 0], [1, 0]]), timeout=120)
@@ -838,7 +855,7 @@ class Checker:
                 self.harness.append({"sweep": res})
                 continue
             na = max([n for (t, j, n) in res["op_events"] if t == 0 and j == 0] or [0])
-            all_next = (not op_mode) and sw["pairs_in_all_events_mode"] < n_all
+            all_next = mode == "all"
             # only the all-events mode costs one run per event; the sites mode costs
             # one run per distinct source line, however long a loop runs (a lazy
             # initialiser that walks a 2,800-entry table is exactly what we want)
@@ -858,7 +875,7 @@ class Checker:
                 sw["pairs_in_opcode_mode"] += 1
             sw["line_events_of_A_total"] += na
             sw["distinct_sites_total"] += len(sites)
-            all_mode = (not op_mode) and sw["pairs_in_all_events_mode"] < n_all
+            all_mode = mode == "all"
             if all_mode:
                 sw["pairs_in_all_events_mode"] += 1
                 points = list(range(1, na + 1, stride))
